@@ -75,6 +75,10 @@ QUOTED_CHARS = {
     "t": "\t",
 }
 
+# EscapedUnicode is /[0-9A-Fa-f]{4}/: ``str.isalnum`` and ``int(s, 16)`` both accept
+# more than that (Unicode digits, "0x" prefixes, surrounding whitespace).
+HEX_DIGITS = frozenset("0123456789abcdefABCDEF")
+
 
 class Lexer:
     """
@@ -236,12 +240,12 @@ class Lexer:
 
             self._position += 1
 
-            if not char.isalnum():
+            if char not in HEX_DIGITS:
                 break
 
         escape = self._source[start : self._position]
 
-        if len(escape) != 4:
+        if len(escape) != 4 or escape[-1] not in HEX_DIGITS:
             raise InvalidEscapeSequence(
                 "\\u%s" % escape, start - 1, self._source
             )
